@@ -110,6 +110,14 @@ def xrZeros (s : Src) (time : Option TimeArg) (crsName : Option String) (nodata 
     | .error e => .error e
     | .ok n => wrapXr s ⟨n :: srcShape s, some t, none, nodata, crsName, attrs⟩
 
+/-- `xr_zeros` as repaired on branch fix3-C09: a single time stamp (`str` or `datetime`) is wrapped into a one-element
+list first, exactly as `wrap_xr` does, so the array gets one step along the time axis. -/
+def xrZerosFixed (s : Src) (time : Option TimeArg) (crsName : Option String) (nodata : Bool) (attrs : List String) :
+    Res XArr :=
+  match time with
+  | some (.scalar _) => xrZeros s (some (.list 1)) crsName nodata attrs
+  | t => xrZeros s t crsName nodata attrs
+
 /-- `_xarray_geobox(ds)` for a Dataset given as its data variables (each already carrying the Dataset's
 coordinates): the geobox of the first variable that has one -/
 def xarrayGeobox : List (String × XArr) → Res Recovered
